@@ -747,4 +747,287 @@ theorem steps_states_noskip :
         · subst h; rw [hs2 (by simp), mem_sins]; simp [hqe]
 
 
+
+
+
+/-! ### `update` keeps the disk well formed -/
+
+theorem hasChild_false {disk : Disk} {d : Path} (h : hasChild disk d = false) {q : Path} {x : Entry}
+    (hq : get disk q = some x) (hp : d <+: q) : q = d := by
+  simp only [hasChild, List.any_eq_false, Bool.and_eq_true, not_and] at h
+  have := h (q, x) (get_some_mem hq) (isPrefixOf_iff.mpr hp)
+  simpa using this
+
+theorem wf_set_dir {disk : Disk} {q : Path} (hwf : WFDisk disk)
+    (ha : ∀ a, Ancestor a q → get disk a = some .dir) : WFDisk (set q .dir disk) := by
+  intro p e a hp hanc
+  rw [get_set] at hp ⊢
+  by_cases haq : a = q
+  · simp [haq]
+  · simp only [haq, if_false]
+    by_cases hpq : p = q
+    · subst hpq; exact ha a hanc
+    · simp only [hpq, if_false] at hp
+      exact hwf p e a hp hanc
+
+theorem wf_set_leaf {disk : Disk} {p : Path} {x : Entry} (hwf : WFDisk disk) (hn : get disk p = none)
+    (ha : ∀ a, Ancestor a p → get disk a = some .dir) : WFDisk (set p x disk) := by
+  intro q e a hq hanc
+  rw [get_set] at hq ⊢
+  by_cases hqp : q = p
+  · subst hqp
+    have : a ≠ q := hanc.2.1
+    simp only [this, if_false]
+    exact ha a hanc
+  · simp only [hqp, if_false] at hq
+    have hd := hwf q e a hq hanc
+    by_cases hap : a = p
+    · subst hap; rw [hn] at hd; simp at hd
+    · simp only [hap, if_false]; exact hd
+
+theorem wf_del_leaf {disk : Disk} {p : Path} {x : Entry} (hwf : WFDisk disk) (hp : get disk p = some x)
+    (hx : x ≠ .dir) : WFDisk (del p disk) := by
+  intro q e a hq hanc
+  rw [get_del] at hq ⊢
+  by_cases hqp : q = p
+  · simp [hqp] at hq
+  · simp only [hqp, if_false] at hq
+    have hd := hwf q e a hq hanc
+    by_cases hap : a = p
+    · subst hap; rw [hp] at hd; exact absurd (Option.some.inj hd) hx
+    · simp only [hap, if_false]; exact hd
+
+theorem wf_del_emptydir {disk : Disk} {d : Path} (hwf : WFDisk disk) (hc : hasChild disk d = false) :
+    WFDisk (del d disk) := by
+  intro q e a hq hanc
+  rw [get_del] at hq ⊢
+  by_cases hqd : q = d
+  · simp [hqd] at hq
+  · simp only [hqd, if_false] at hq
+    have hd := hwf q e a hq hanc
+    by_cases had : a = d
+    · subst had; exact absurd (hasChild_false hc hq hanc.2.2) hqd
+    · simp only [had, if_false]; exact hd
+
+theorem cpd_wf (disk : Disk) (pre : Path) (rest : List String) {d' : Disk}
+    (hwf : WFDisk disk) (hpre : ∀ a, a ≠ [] → a <+: pre → get disk a = some .dir)
+    (h : createParentDirs disk pre rest = some d') : WFDisk d' := by
+  fun_induction createParentDirs disk pre rest generalizing d' with
+  | case1 => simp at h; subst h; exact hwf
+  | case2 => simp at h; subst h; exact hwf
+  | case3 disk pre c c' rest hn ih =>
+    have hanc : ∀ a, Ancestor a (pre ++ [c]) → get disk a = some .dir := by
+      intro a ⟨h1, h2, h3⟩
+      rcases List.prefix_concat_iff.mp h3 with h | h
+      · exact absurd h h2
+      · exact hpre a h1 h
+    apply ih (wf_set_dir hwf hanc) _ h
+    intro a ha0 hap
+    rcases List.prefix_concat_iff.mp hap with h | h
+    · subst h; exact get_set_self _ _ _
+    · have hne : a ≠ pre ++ [c] := by
+        intro e; have := congrArg List.length e; have := h.length_le; simp at *; omega
+      rw [get_set_ne hne]; exact hpre a ha0 h
+  | case4 disk pre c c' rest hd ih =>
+    apply ih hwf _ h
+    intro a ha0 hap
+    rcases List.prefix_concat_iff.mp hap with h | h
+    · subst h; exact hd
+    · exact hpre a ha0 h
+  | case5 => simp at h
+
+theorem cleanup_wf (disk : Disk) (rev : List String) (hwf : WFDisk disk) : WFDisk (cleanupParents disk rev) := by
+  fun_induction cleanupParents disk rev with
+  | case1 => exact hwf
+  | case2 disk c rev d hd hc => exact hwf
+  | case3 disk c rev d hd hc ih => exact ih (wf_del_emptydir hwf (by simpa using hc))
+  | case4 disk c rev d hx => exact hwf
+
+theorem prepared_wf {u : UState} {e : DiffEntry} {d1 : Disk} (hwf : WFDisk d1) : WFDisk (prepared u e d1).2 := by
+  unfold prepared
+  split
+  · unfold removeOldFile
+    split
+    · rename_i h; exact wf_del_leaf hwf h (by simp)
+    · rename_i h; exact wf_del_leaf hwf h (by simp)
+    · exact hwf
+  · exact hwf
+
+/-- one step keeps the disk well formed -/
+theorem step_wf {u : UState} {e : DiffEntry} (hwf : WFDisk u.disk) : WFDisk (step u e).disk := by
+  cases hc : createParentDirs u.disk [] e.path with
+  | none => rw [step_skipParent hc]; exact hwf
+  | some d1 =>
+    have h1 : WFDisk d1 := cpd_wf u.disk [] e.path hwf (by
+      intro a ha0 hap
+      exact absurd (List.prefix_nil.mp hap) ha0) hc
+    have h2 : WFDisk (prepared u e d1).2 := prepared_wf h1
+    by_cases hif : (!(prepared u e d1).1 && (get (prepared u e d1).2 e.path).isSome) = true
+    · rw [step_some hc, if_pos hif]; exact h2
+    · rw [step_some hc, if_neg hif]
+      cases e.after with
+      | none => exact cleanup_wf _ _ h2
+      | some v =>
+        simp only
+        apply wf_set_leaf h2 (prepared_none_of_not_skip hif)
+        intro a hanc
+        have hb : Between [] e.path a := ⟨List.nil_prefix, by simpa using hanc.2.2, hanc.1, by simpa using hanc.2.1⟩
+        rw [prepared_get_ne u e d1 hanc.2.1]
+        exact cpd_parents _ _ _ hc hb
+
+theorem steps_wf : ∀ (es : List DiffEntry) (u : UState), WFDisk u.disk → WFDisk (steps u es).disk := by
+  intro es
+  induction es with
+  | nil => intro u h; exact h
+  | cons e es ih => intro u h; simp only [steps]; exact ih _ (step_wf h)
+
+theorem update_wf {disk : Disk} (states : List Path) (old new : Tree) (m : Path → Bool) (hwf : WFDisk disk) :
+    WFDisk (update disk states old new m).disk :=
+  steps_wf _ _ hwf
+
+
+/-! ### no file↔directory replacement between the trees: nothing is skipped, in any order -/
+
+/-- a path within the matcher that one of the two trees has -/
+def TreePath (old new : Tree) (m : Path → Bool) (p : Path) : Prop :=
+  m p = true ∧ (get old p ≠ none ∨ get new p ≠ none)
+
+/-- no path of either tree (within the matcher) lies strictly below a path of either tree:
+the two trees agree on what is a file and what is a directory -/
+def NoTypeChange (old new : Tree) (m : Path → Bool) : Prop :=
+  ∀ p q, TreePath old new m p → TreePath old new m q → p <+: q → p = q
+
+/-- disk invariant: files only at tree paths, directories only above tree paths -/
+def Shaped (old new : Tree) (m : Path → Bool) (disk : Disk) : Prop :=
+  (∀ q x, get disk q = some x → x ≠ .dir → TreePath old new m q) ∧
+  (∀ d, get disk d = some .dir → ∃ q, TreePath old new m q ∧ d <+: q ∧ d ≠ q)
+
+theorem step_dir_origin {u : UState} {e : DiffEntry} {d : Path} (h : get (step u e).disk d = some .dir) :
+    get u.disk d = some .dir ∨ Between [] e.path d := by
+  cases hc : createParentDirs u.disk [] e.path with
+  | none => rw [step_skipParent hc] at h; exact Or.inl h
+  | some d1 =>
+    have g1 : get (prepared u e d1).2 d = some .dir → get u.disk d = some .dir ∨ Between [] e.path d := by
+      intro g
+      have g' : get d1 d = some .dir := by
+        by_cases hd : d = e.path
+        · subst hd
+          unfold prepared at g
+          split at g
+          · rcases removeOldFile_self d1 e.path with ⟨_, h2, _⟩ | ⟨_, h2, _⟩
+            · rw [h2] at g; simp at g
+            · rw [h2] at g; exact g
+          · exact g
+        · rw [prepared_get_ne u e d1 hd] at g; exact g
+      rcases cpd_get _ _ _ hc d with h1 | ⟨_, _, h3⟩
+      · left; rw [← h1]; exact g'
+      · exact Or.inr h3
+    by_cases hif : (!(prepared u e d1).1 && (get (prepared u e d1).2 e.path).isSome) = true
+    · rw [step_some hc, if_pos hif] at h; exact g1 h
+    · rw [step_some hc, if_neg hif] at h
+      cases ha : e.after with
+      | none =>
+        simp only [ha] at h
+        rcases cleanup_get (prepared u e d1).2 e.path.reverse.tail d with h' | ⟨_, h'⟩
+        · rw [h'] at h; exact g1 h
+        · rw [h'] at h; simp at h
+      | some v =>
+        simp only [ha] at h
+        by_cases hd : d = e.path
+        · subst hd; rw [get_set_self] at h; exact absurd (Option.some.inj h) (materialize_ne_dir v)
+        · rw [get_set_ne hd] at h; exact g1 h
+
+theorem step_leaf_origin {u : UState} {e : DiffEntry} {q : Path} {x : Entry}
+    (h : get (step u e).disk q = some x) (hx : x ≠ .dir) : get u.disk q = some x ∨ q = e.path := by
+  by_cases hq : q = e.path
+  · exact Or.inr hq
+  · exact Or.inl (step_no_new_leaf hq h hx)
+
+/-- under `NoTypeChange`, from a shaped disk on which every file at a pending path is known to the
+old tree, a step for a tree path is never a skip, and the invariants are kept -/
+theorem step_noskip_of_shaped {old new : Tree} {m : Path → Bool} {u : UState} {e : DiffEntry}
+    (hnt : NoTypeChange old new m) (hsh : Shaped old new m u.disk) (hp : TreePath old new m e.path)
+    (hb : ∀ x, get u.disk e.path = some x → x ≠ .dir → e.before ≠ none) :
+    Shaped old new m (step u e).disk ∧ (step u e).stats.skipped = u.stats.skipped := by
+  constructor
+  · constructor
+    · intro q x hq hx
+      rcases step_leaf_origin hq hx with h | h
+      · exact hsh.1 q x h hx
+      · rw [h]; exact hp
+    · intro d hd
+      rcases step_dir_origin hd with h | h
+      · exact hsh.2 d h
+      · exact ⟨e.path, hp, by simpa using h.2.1, h.2.2.2⟩
+  · -- not a skip
+    cases hc : createParentDirs u.disk [] e.path with
+    | none =>
+      exfalso
+      obtain ⟨a, x, hab, hx, hne⟩ := cpd_none_leaf _ _ _ hc
+      have hta := hsh.1 a x hx hne
+      exact hab.2.2.2 (by simpa using hnt a e.path hta hp (by simpa using hab.2.1))
+    | some d1 =>
+      have hnot : ¬ (!(prepared u e d1).1 && (get (prepared u e d1).2 e.path).isSome) = true := by
+        intro hif
+        simp only [Bool.and_eq_true, Bool.not_eq_true'] at hif
+        obtain ⟨hdel, hsome⟩ := hif
+        -- what stands at the path in `d1` is what stood there before
+        have hsame : get d1 e.path = get u.disk e.path := by
+          rcases cpd_get _ _ _ hc e.path with h | ⟨_, _, h3⟩
+          · exact h
+          · exact absurd (by simp) h3.2.2.2
+        cases hg : get u.disk e.path with
+        | none =>
+          have : get (prepared u e d1).2 e.path = none := by
+            unfold prepared; split
+            · rcases removeOldFile_self d1 e.path with ⟨_, h2, _⟩ | ⟨_, h2, _⟩
+              · exact h2
+              · rw [h2, hsame]; exact hg
+            · rw [hsame]; exact hg
+          rw [this] at hsome; simp at hsome
+        | some y =>
+          cases hy : decide (y = .dir) with
+          | true =>
+            have hyd := of_decide_eq_true hy
+            subst hyd
+            obtain ⟨q, hq, hpre, hne⟩ := hsh.2 e.path hg
+            exact hne (hnt e.path q hp hq hpre)
+          | false =>
+            have hyn := of_decide_eq_false hy
+            have hbs := hb y hg hyn
+            -- a tracked file: `remove_old_file` removes it
+            unfold prepared at hdel
+            cases hbe : e.before with
+            | none => exact hbs hbe
+            | some w =>
+              simp only [hbe, Option.isSome_some, if_true] at hdel
+              rcases removeOldFile_self d1 e.path with ⟨h1, _, _⟩ | ⟨_, _, h3⟩
+              · rw [h1] at hdel; simp at hdel
+              · rw [hsame, hg] at h3
+                rcases h3 with h3 | h3
+                · simp at h3
+                · exact hyn (Option.some.inj h3)
+      rw [step_some hc, if_neg hnot]
+      cases e.after <;> simp [countStats_skipped]
+
+theorem steps_noskip_of_shaped {old new : Tree} {m : Path → Bool} (hnt : NoTypeChange old new m) :
+    ∀ (es : List DiffEntry) (u : UState), (es.map (·.path)).Nodup → Shaped old new m u.disk →
+      (∀ e ∈ es, TreePath old new m e.path) →
+      (∀ e ∈ es, ∀ x, get u.disk e.path = some x → x ≠ .dir → e.before ≠ none) →
+      (steps u es).stats.skipped = u.stats.skipped := by
+  intro es
+  induction es with
+  | nil => intro u _ _ _ _; rfl
+  | cons e es ih =>
+    intro u hnd hsh htp hb
+    simp only [List.map_cons, List.nodup_cons] at hnd
+    simp only [steps]
+    obtain ⟨hsh', hsk⟩ := step_noskip_of_shaped hnt hsh (htp e (List.mem_cons_self ..)) (hb e (List.mem_cons_self ..))
+    rw [ih (step u e) hnd.2 hsh' (fun e' he' => htp e' (List.mem_cons_of_mem _ he')) ?_, hsk]
+    intro e' he' x hx hxd
+    have hne : e'.path ≠ e.path := by
+      intro heq; exact hnd.1 (List.mem_map.mpr ⟨e', he', heq⟩)
+    exact hb e' (List.mem_cons_of_mem _ he') x (step_no_new_leaf hne hx hxd) hxd
+
+
 end JjModel.WorkingCopy
